@@ -688,6 +688,43 @@ def run(only=None):
             hist.reused_buffer(s, code, ents)
         s.done()
 
+    if want("storage_twin_histories"):
+        s = rep.sub("storage_twin_histories",
+                    "per codec: 5 messages x 3 containers that a cache keyed by storage octets confuses (big-endian bitarray, little-endian bitarray over the "
+                    "same octets = another message, little-endian bitarray with the same bits): all ordered pairs of encode calls back to back give the "
+                    "reference codeword of the message the container holds; the same for the data-bit extractor over the containers of the codewords")
+        for code, K_, enc_f, ref_f, ext_f in (
+            ("32_11", 11, lambda b: VBPTC3211.encode(b, True), lambda m: ref_encode32(m, True), VBPTC3211.deinterleave_data_bits),
+            ("128_72", 72, VBPTC12873.encode, ref_encode128, VBPTC12873.deinterleave_data_bits),
+            ("68_28", 28, VBPTC6828.encode, ref_encode68, VBPTC6828.deinterleave_data_bits),
+        ):
+            ms = [env.det_bits(f"c09-twin-{code}-{i}", K_) for i in range(4)] + [("1011001" * 12)[:K_]]
+            cws = [ref_f(m) for m in ms[:3]]
+            hist.storage_twin_histories(s, code, [
+                (f"{code}.encode", enc_f, ms, (lambda r, bits, ref_f=ref_f: r.to01() == ref_f(bits)), False),
+            ])
+            # extractor: containers whose bit string is a codeword (big-endian, little-endian with the same bits), mixed with the same-octets twin
+            # of another codeword as the first call of the pair (whatever that call does)
+            for i, cw in enumerate(cws):
+                tw = list(hist.storage_twins(cw))
+                good = [(k, o) for k, o, b in tw if b == cw]
+                other = [(k, o) for k, o, b in hist.storage_twins(cws[(i + 1) % len(cws)])]
+                for ka, oa in good + other:
+                    for kb, ob in good:
+                        try:
+                            ext_f(oa.copy())
+                        except Exception:  # noqa: BLE001 - a non-codeword may be refused
+                            pass
+                        try:
+                            r = ext_f(ob.copy()).to01()
+                        except Exception as e:  # noqa: BLE001
+                            s.violation(f"storage_twins:exception:{code}:extract:" + exc_sig(e), {"first": ka, "second": kb}, repr(e))
+                            continue
+                        if r[:K_] != ms[i]:
+                            s.violation(f"storage_twins:wrong_result_in_a_history_of_storage_twins:{code}:extract", {"first": ka, "second": kb, "message": ms[i]})
+                        s.case(nontrivial=True, calls=2, outcome="twin_pair_extract")
+        s.done()
+
     if want("long_call_history"):
         s = rep.sub("long_call_history",
                     "encode / extract of one fixed message per codec called again and again in one process: the result never depends on how "
